@@ -86,4 +86,23 @@ Proof.
     apply Permutation_length in Hp. unfold cat in Hp. rewrite Hp, app_length. lia.
   - exact Hf.
 Qed.
+
+(* lifted to every continuation of an explored state: calls and stored samples advance in lock step *)
+Lemma step_lockstep s e s' : explored s = true -> step s e = Some s' ->
+  explored s' = true /\ n_like s' + length (all_pts s) = n_like s + length (all_pts s') /\ t_pts s' = t_pts s.
+Proof.
+  intros Hx E. destruct (C12_step contains in_cube lik blob n_batch s e s' Hx E) as (Hx' & _ & Hm). split; [exact Hx'|].
+  destruct e as [b| |idx rounds vals|d|d]; try contradiction.
+  - destruct (batch_stored s idx rounds vals s' Hx E) as (A & B & C & _). split; [lia|exact C].
+  - simpl in E. unfold set_discard in E. inversion E; subst; unfold all_pts; simpl. split; [lia|reflexivity].
+Qed.
+Theorem run_lockstep : forall evs s s', explored s = true -> Shell2.run contains in_cube lik blob n_batch s evs = Some s' ->
+  explored s' = true /\ n_like s' + length (all_pts s) = n_like s + length (all_pts s') /\ t_pts s' = t_pts s.
+Proof.
+  induction evs as [|e evs IH]; simpl; intros s s' Hx E.
+  - inversion E; subst. repeat split; auto.
+  - destruct (step s e) as [s1|] eqn:Es; [|discriminate].
+    destruct (step_lockstep s e s1 Hx Es) as (Hx1 & L1 & T1).
+    destruct (IH s1 s' Hx1 E) as (Hx2 & L2 & T2). repeat split; auto; try lia. congruence.
+Qed.
 End Support.
